@@ -48,7 +48,7 @@ def strategy(tier):
                                    "stages": st.lists(_stage, min_size=1, max_size=5)})
     mapk = st.fixed_dictionaries({"mapk": st.just(True), "halt": st.booleans(), "max_amp": st.sampled_from([10, 100, 1000, 5000]),
                                   "amps": st.lists(st.sampled_from([0.5, 1, 2, 10, 200]), min_size=3, max_size=3), "input": _json})
-    return st.one_of(plain, plain, plain, plain, plain, plain, plain, mapk)
+    return st.integers(0, 7).flatmap(lambda k: mapk if k == 0 else plain)
 
 
 def enumerate_cases(tier):
